@@ -1,0 +1,77 @@
+//go:build verif
+
+package utils
+
+// Contracts for gvc (contract-based deductive verification, see /verif/DESIGN.md).
+// Comment-only file, compiled only under the build tag "verif".
+
+// rd(r) is the remaining content of a reader (ghost stream). Allocation is bounded by the input.
+
+//@ func BytesFromBuffer
+//@   props C12 C16 C13
+//@   requires r != nil
+//@   requires "bounded-request": typeis(r, "stream") || length <= 65536
+//@   ensures "exact": err == nil ==> len(result0) == length && result0 === old(rd(r))[:length] && rd(r) === old(rd(r))[length:]
+//@   ensures err == nil ==> len(rd(r)) == len(old(rd(r))) - length && fresh(result0) && 0 <= length
+//@   ensures err != nil ==> result0 == nil
+//@   allocbound typeis(r, "stream") ? len(old(rd(r))) : 65536
+//@   assigns r
+//@   safety all
+
+//@ func ByteFromBuffer
+//@   props C12 C16 C13
+//@   requires r != nil
+//@   ensures "exact": err == nil ==> len(old(rd(r))) >= 1 && result0 == old(rd(r))[0] && rd(r) === old(rd(r))[1:] && len(rd(r)) == len(old(rd(r))) - 1
+//@   assigns r
+//@   safety all
+
+//@ func TrimLeadingZeroBytes
+//@   props C12 C07
+//@   ensures "suffix": exists k :: 0 <= k && k <= len(data) && result === data[k:] && (forall i :: 0 <= i && i < k ==> data[i] == 0) && (k < len(data) ==> data[k] != 0)
+//@   loop 1 invariant forall i :: 0 <= i && i <= rangeindex ==> data[i] == 0
+//@   loop 1 decreases len(data) - rangeindex
+//@   assigns nothing
+//@   safety all
+
+//@ func SafePrefix
+//@   props C12
+//@   ensures prefixLength >= 0 ==> result === data[:min(prefixLength, len(data))]
+//@   requires prefixLength >= 0
+//@   assigns nothing
+//@   safety all
+
+//@ func XorBytes
+//@   props C12 C05
+//@   requires len(arr1) == len(arr2)
+//@   ensures len(result) == len(arr1) && fresh(result)
+//@   loop 1 invariant 0 <= i && i <= len(arr1) && len(out) == len(arr1)
+//@   loop 1 decreases len(arr1) - i
+//@   assigns nothing
+//@   safety all
+
+//@ func BytesToInt
+//@   props C12
+//@   loop 1 invariant 0 <= i && i <= len(bytes)
+//@   loop 1 decreases len(bytes) - i
+//@   assigns nothing
+//@   safety all
+
+//@ func UInt16ToBytes
+//@   props C12 C17
+//@   ensures result === seq(value / 256, value % 256) && fresh(result)
+//@   assigns nothing
+//@   safety all
+
+//@ func UInt32ToBytes
+//@   props C12
+//@   ensures result === seq(value / 16777216, (value / 65536) % 256, (value / 256) % 256, value % 256) && fresh(result)
+//@   assigns nothing
+//@   safety all
+
+//@ func UInt64ToBytes
+//@   props C12 C16
+//@   ensures len(result) == 8 && fresh(result)
+//@   ensures result[0] == (value / 72057594037927936) % 256 && result[1] == (value / 281474976710656) % 256 && result[2] == (value / 1099511627776) % 256 && result[3] == (value / 4294967296) % 256
+//@   ensures result[4] == (value / 16777216) % 256 && result[5] == (value / 65536) % 256 && result[6] == (value / 256) % 256 && result[7] == value % 256
+//@   assigns nothing
+//@   safety all
